@@ -75,7 +75,15 @@ fn parse_id(s: &str) -> Option<usize> {
 // ------------------------------------------------------------------------------------------------
 // worker: runs a partition of the run indexes, streams violations, writes its stats to a file
 
+/// The simulated caller runs on a thread with a 1 MiB stack (a spawned Rust thread has 2 MiB by
+/// default, async runtimes often less): stack use that grows with the input then overflows into
+/// the thread's guard page and is reported like any other crash.
 fn worker(a: &[String]) -> i32 {
+    let a: Vec<String> = a.to_vec();
+    std::thread::Builder::new().stack_size(1 << 20).spawn(move || worker_body(&a)).unwrap().join().unwrap_or(101)
+}
+
+fn worker_body(a: &[String]) -> i32 {
     let id = parse_id(&a[0]).unwrap();
     let thorough = a[1] == "thorough";
     let seed: u64 = a[2].parse().unwrap();
@@ -636,6 +644,11 @@ fn load_known(vd: &str) -> Vec<Known> {
 // ------------------------------------------------------------------------------------------------
 
 fn replay(a: &[String]) -> i32 {
+    let a: Vec<String> = a.to_vec();
+    std::thread::Builder::new().stack_size(1 << 20).spawn(move || replay_body(&a)).unwrap().join().unwrap_or(101)
+}
+
+fn replay_body(a: &[String]) -> i32 {
     let Some(path) = a.first() else {
         return 2;
     };
